@@ -15,6 +15,7 @@ TRUSTED = [
     'oracles applied by the harness to the model result: encodings.is_ascii_compatible_encoding, bytes.decode(charset)',
     'modelled, not verified: memoryview slicing/indexing, struct.unpack, bytes.split, the `re` search for charset=',
     'the independent reference reader tools/harness/mo_lib.py:ref_read (written from gmo.h) and the fault enumerator',
+    'source translator tools/gen/gen_moparser_src.py (python ast of Parser._read_ints/_parse_entry/_parse and the magic constants -> Generated/MoParserSrc.v, fail-closed subset, rules in its docstring) with the Gallina meaning of that subset in Model/MoParserPy.v; the C09_source_tie_* theorems prove its output equal to Model/MoParser.v; Parser.__init__ (file reading, cast to bytes of length 1, creation of the MOFile) and what polib.MOEntry does with its arguments stay tied by correspondence only',
     'Checker.check glue: Model/Check.v (the loaders are an oracle with six outcome classes), theorems C09_glue_*; tied to the real method by '
     'tools/harness/glue_lib.py (scripted loader outcomes, sub-checks replaced by recorders, driver op checktop) and exercised on real files through '
     'tools/harness/impl_checker.py on a sample; Model/MoParser.v:checker_load is the same structure specialised to the MO loader model',
